@@ -3,7 +3,7 @@
    function of (level, data) only, so in the model split independence holds
    by construction; what is proved here are round trips through the two
    models on concrete inputs. *)
-From V Require Import Base.Prelude Base.Prog Bzip2.Common Bzip2.SpecR Bzip2.SpecW Bzip2.Thms.
+From V Require Import Base.Prelude Base.Prog Bzip2.Common Bzip2.SpecR Bzip2.SpecW Bzip2.Thms Bzip2.Rle1.
 
 Theorem bzip2_roundtrip_witness_text :
   bzip2_decode (bzip2_encode 1 hello) = mkBZ None hello (N.of_nat (length (bzip2_encode 1 hello))).
@@ -19,3 +19,41 @@ Theorem bzip2_roundtrip_witness_runs :
   bz_out (bzip2_decode (bzip2_encode 3 d)) = d /\ bz_err (bzip2_decode (bzip2_encode 3 d)) = None.
 Proof. exact bz_roundtrip_runs. Qed.
 Print Assumptions bzip2_roundtrip_witness_runs.
+
+(* Stage 1 for EVERY input and EVERY block size L >= 1: the block that the Writer's
+   run-length stage (with its block-full rules) stores is expanded by the Reader's stage to
+   exactly the input bytes consumed; both CRC registers agree; the block fits; a non-empty
+   input makes progress; the decoder never ends in the rejected "four equal bytes, no count"
+   state. *)
+Theorem bzip2_rle1_block_roundtrip : forall L data block crc rest,
+  1 <= L ->
+  rle1_fill L data [] 0 0 0 crc_init = (block, crc, rest) ->
+  exists consumed,
+    data = consumed ++ rest /\
+    (data <> [] -> consumed <> []) /\
+    N.of_nat (length block) <= L /\
+    crc = fold_left crc_step consumed crc_init /\
+    forall s, run (rle1_emit block 0 0 crc_init) s = Done crc (push_out s consumed).
+Proof. exact rle1_block_roundtrip. Qed.
+Print Assumptions bzip2_rle1_block_roundtrip.
+
+(* the Writer's block loop is a fold of the later stages over [rle1_blocks] ... *)
+Theorem bzip2_block_loop_is_fold : forall L fuel data combined acc,
+  encode_blocks fuel L data combined acc =
+  fold_left (fun st bc => (crc_combine (fst st) (crc_final (snd bc)),
+                           encode_block (fst bc) (crc_final (snd bc)) (snd st)))
+            (rle1_blocks fuel L data) (combined, acc).
+Proof. exact encode_blocks_fold. Qed.
+Print Assumptions bzip2_block_loop_is_fold.
+
+(* ... and those blocks, expanded, concatenate to the whole input (nothing lost, duplicated
+   or reordered at block boundaries, for every input and block size) *)
+Theorem bzip2_rle1_blocks_cover_input : forall L, 1 <= L -> forall fuel data,
+  (length data < fuel)%nat ->
+  concat (map (fun bc => expand_out (fst bc)) (rle1_blocks fuel L data)) = data /\
+  Forall (fun bc => N.of_nat (length (fst bc)) <= L /\
+                    snd (fst (expand (fst bc) 0 0)) <> 4 /\
+                    snd bc = fold_left crc_step (expand_out (fst bc)) crc_init)
+         (rle1_blocks fuel L data).
+Proof. exact rle1_blocks_cover. Qed.
+Print Assumptions bzip2_rle1_blocks_cover_input.
